@@ -136,7 +136,8 @@ def run_one(sub, case, ctx, state, treedir, journal_path=None, classify=True,
             msg = "unexpected %s escaping esutil: %s" % (type(exc).__name__, str(exc)[:300])
             _record_fail(state, case, msg)
             raise Violation(msg) from exc
-        raise HarnessAbort("check %s raised outside esutil:\n%s" % (sub.name, traceback.format_exc()))
+        raise HarnessAbort("check %s raised outside esutil:\n%s\ncase: %s"
+                           % (sub.name, traceback.format_exc(), canonical(case)[:4000]))
     finally:
         for k, v in ctx.notes.items():
             state.notes[k] = state.notes.get(k, 0) + v
